@@ -115,6 +115,26 @@ type specEnc struct {
 	devTypeCodes bool // binary protocol written with the compact protocol's type codes
 	devStop3     bool // binary protocol stop field written as type byte + 16-bit id
 	devDoubleBE  bool // compact protocol doubles written big-endian
+	// alternative conformant encodings (compact protocol): 1 = every field and list/set header in its long form,
+	// >1 = long or short form chosen per header from this xorshift state
+	alt uint64
+}
+
+// long reports whether the next header that has a short form must be written in its long form
+func (e *specEnc) long() bool {
+	switch e.alt {
+	case 0:
+		return false
+	case 1:
+		return true
+	}
+	e.alt ^= e.alt << 13
+	e.alt ^= e.alt >> 7
+	e.alt ^= e.alt << 17
+	if e.alt < 2 {
+		e.alt = 2
+	}
+	return e.alt&4 != 0
 }
 
 // specification type codes
@@ -231,7 +251,7 @@ func (e *specEnc) i32(i int32) {
 
 func (e *specEnc) listHeader(code byte, n int) {
 	if e.compact {
-		if n < 15 {
+		if n < 15 && !e.long() {
 			e.buf.WriteByte(byte(n)<<4 | code)
 		} else {
 			e.buf.WriteByte(0xF0 | code)
@@ -297,7 +317,7 @@ func (e *specEnc) structValue(t *tty, v *tval) {
 					code = 2
 				}
 			}
-			if d := f.id - last; d > 0 && d <= 15 {
+			if d := f.id - last; d > 0 && d <= 15 && !e.long() {
 				e.buf.WriteByte(byte(d)<<4 | code)
 			} else {
 				e.buf.WriteByte(code)
@@ -466,6 +486,15 @@ func c04() {
 	}
 }
 
+// tDecodeAlt: every specification-conformant encoding of the same content is accepted with the same result: the
+// compact encoding with long-form field and list/set headers where a short form exists (all long, or mixed). The
+// recorded deviations of the package (big-endian compact doubles) are reproduced, as in tEncode.
+func tDecodeAlt(t *tty, v *tval, alt uint64) {
+	e := &specEnc{compact: true, devDoubleBE: true, alt: alt}
+	e.value(t, v, false)
+	tDecodeExpect(t, e.buf.Bytes(), "c", v.canon())
+}
+
 func c13() {
 	g := tgenerator()
 	n, nv := 300, 5
@@ -481,6 +510,8 @@ func c13() {
 			for _, p := range tprotos {
 				tEncode(t, v, p)
 			}
+			tDecodeAlt(t, v, 1)
+			tDecodeAlt(t, v, 2+rnd()>>1)
 		}
 	}
 }
